@@ -108,14 +108,14 @@ func (c *Ctx) Record(key, format string, a ...any) {
 	}
 }
 
-func (c *Ctx) NonTrivial()              { c.nontrivial = true }
-func (c *Ctx) Skip(reason string)       { c.skipped = reason }
-func (c *Ctx) Inconclusive(r string)    { c.inconclusive = r }
-func (c *Ctx) Violations() []Violation  { return c.viol }
-func (c *Ctx) IsNonTrivial() bool       { return c.nontrivial }
-func (c *Ctx) Skipped() string          { return c.skipped }
-func (c *Ctx) IsInconclusive() string   { return c.inconclusive }
-func (c *Ctx) Failed() bool             { return len(c.viol) > 0 }
+func (c *Ctx) NonTrivial()                   { c.nontrivial = true }
+func (c *Ctx) Skip(reason string)            { c.skipped = reason }
+func (c *Ctx) Inconclusive(r string)         { c.inconclusive = r }
+func (c *Ctx) Violations() []Violation       { return c.viol }
+func (c *Ctx) IsNonTrivial() bool            { return c.nontrivial }
+func (c *Ctx) Skipped() string               { return c.skipped }
+func (c *Ctx) IsInconclusive() string        { return c.inconclusive }
+func (c *Ctx) Failed() bool                  { return len(c.viol) > 0 }
 func (c *Ctx) Recorded() map[string][]string { return c.recorded }
 
 // FirstCode returns the code of the first violation, or "".
